@@ -339,7 +339,7 @@ func genProxy(g *fact.Gen) {
 	}
 	// commit-hash loop
 	emitBoolShape(g, "hashLoopShape", "handler: `if allHex(vers)`: best := \"\"; for m in modList with m.Path == path && semver.Compare(best, m.Version) < 0: hash := (pseudo ? text after the last '-' : findHash(m)); if HasPrefix(hash, vers) || HasPrefix(vers, hash) then best = m.Version; finally `if best != \"\" { vers = best }`.", true, func() (bool, bool, string) {
-		ok := strings.Contains(hSrc, `ifallHex(vers){varbeststringfor_,m:=rangesrv.modList{ifm.Path==path&&semver.Compare(best,m.Version)<0{varhashstringifisPseudoVersion(m.Version){hash=m.Version[strings.LastIndex(m.Version,"-")+1:]}else{hash=srv.findHash(m)}ifstrings.HasPrefix(hash,vers)||strings.HasPrefix(vers,hash){best=m.Version}}}ifbest!=""{vers=best}}a:=srv.readArchive(path,vers)ifa==nil{`)
+		ok := strings.Contains(hSrc, `ifallHex(vers){varbeststringfor_,m:=rangesrv.modList{ifm.Path==path&&semver.Compare(best,m.Version)<0{varhashstringifisPseudoVersion(m.Version){hash=m.Version[strings.LastIndex(m.Version,"-")+1:]}else{hash=srv.findHash(m)}ifstrings.HasPrefix(hash,vers)||strings.HasPrefix(vers,hash){best=m.Version}}}ifbest!=""{vers=best}}`)
 		if !ok {
 			return false, false, "commit-hash loop has an unrecognised shape"
 		}
@@ -372,7 +372,7 @@ func genProxy(g *fact.Gen) {
 		if mid == "" {
 			return false, true, ""
 		}
-		if strings.Contains(mid, "srv.modList") && strings.Contains(mid, "http.NotFound(w,r)return") {
+		if regexp.MustCompile(`^if!slices\.Contains\(srv\.modList,module\.Version\{Path:path,Version:vers\}\)\{(?:srv\.logf\([^{}]*\))?http\.NotFound\(w,r\)return\}$`).MatchString(mid) {
 			return true, true, ""
 		}
 		return false, false, "unrecognised statements before readArchive: " + mid
